@@ -223,3 +223,35 @@ def finish(report, repo_stats, cg_stats, out=print, evidence_dir=None, replay_di
             json.dump(ev, fh, indent=1, default=str)
         os.replace(tmp, evidence_dir / f"{report.prop}.json")
     return code
+
+
+class Renamed:
+    """View of a Report in which rule identifiers are renamed (used to attach
+    a clause checked for one property to another property that also depends
+    on it)."""
+
+    def __init__(self, rep, mapping=None, to=None):
+        self._rep = rep
+        self._map = mapping or {}
+        self._to = to
+        self.obl = rep.obl
+        self.analysed = rep.analysed
+        self.extra = rep.extra
+        self.findings = rep.findings
+
+    def _r(self, rule):
+        if rule in self._map:
+            return self._map[rule]
+        return self._to or rule
+
+    def rule(self, rid, text):
+        self._rep.rules.setdefault(self._r(rid), text)
+
+    def ok(self, rule, text):
+        self._rep.ok(self._r(rule), text)
+
+    def bad(self, rule, text):
+        self._rep.bad(self._r(rule), text)
+
+    def finding(self, rule, *a, **k):
+        return self._rep.finding(self._r(rule), *a, **k)
